@@ -268,7 +268,7 @@ def _on_alarm(signum, frame):
 
 def run(coro, env: Optional[Env] = None, horizon: Optional[float] = None):
     """run a coroutine to completion on the process-wide stock event loop (used where nothing ever yields).
-    Every execution has a horizon (SIGALRM): an implementation that loops forever surfaces as ExecutionTimeout, which the
+    Every execution has a horizon (CPU seconds, SIGPROF; plus a wall-clock backstop): an implementation that loops forever surfaces as ExecutionTimeout, which the
     checks see as an unexpected exception type.  After the first timeout the horizon of this process drops to 1 s."""
     global _loop
     if _loop is None or _loop.is_closed():
@@ -278,8 +278,13 @@ def run(coro, env: Optional[Env] = None, horizon: Optional[float] = None):
 
     use_alarm = threading.current_thread() is threading.main_thread()
     if use_alarm:
+        # the horizon counts CPU time of this process (ITIMER_PROF): a machine under load must not turn a slow execution into a
+        # timeout; a generous wall-clock timer on top catches an implementation that blocks without consuming CPU
+        h = horizon if horizon is not None else _timeout_s[0]
+        signal.signal(signal.SIGPROF, _on_alarm)
         signal.signal(signal.SIGALRM, _on_alarm)
-        signal.setitimer(signal.ITIMER_REAL, horizon if horizon is not None else _timeout_s[0])
+        signal.setitimer(signal.ITIMER_PROF, h)
+        signal.setitimer(signal.ITIMER_REAL, max(120.0, 20 * h))
     try:
         if env is None:
             return _loop.run_until_complete(coro)
@@ -301,6 +306,7 @@ def run(coro, env: Optional[Env] = None, horizon: Optional[float] = None):
         raise
     finally:
         if use_alarm:
+            signal.setitimer(signal.ITIMER_PROF, 0)
             signal.setitimer(signal.ITIMER_REAL, 0)
 
 
